@@ -15,8 +15,9 @@ import re
 
 from vf import core
 
-THEOREMS = ["barrier_round_safety_refuted", "barrier_single_consumer_refuted", "barrier_one_serial_per_round",
-            "barrier_no_return_before_count", "barrier_single_round_safety", "barrier_reuse_count_1"]
+THEOREMS = ["barrier_round_safety_refuted", "barrier_single_round", "barrier_reuse_count_le_2",
+            "barrier_one_serial_per_round", "barrier_no_return_before_count",
+            "barrier_single_consumer_refuted", "barrier_single_consumer"]
 WAIT = 1
 T1_SOURCES = ["src/fiber_manager.c", "src/fiber.c", "src/fiber_barrier.c", "src/fiber_mutex.c",
               "src/fiber_spinlock.c", "src/hazard_pointer.c"]
@@ -313,6 +314,7 @@ TRUSTED = [
     "SC interleaving; -O0 instrumented build; barrier->count is immutable and not traced",
 ]
 ASSUME = ["given C01 and C02 (a fiber behaves as a sequential process that is resumed once per wake-up): the T1 cut of DESIGN.md 3.4",
-          "exactly `count` fibers use the barrier (theorems barrier_single_round / barrier_reuse_count_le_2); with more "
-          "participants than count two serial fibers can pop the waiter list at once (barrier_single_consumer_refuted)",
+          "exactly `count` fibers use the barrier (barrier_single_round, barrier_reuse_count_le_2, barrier_single_consumer); "
+          "with more participants than count two serial fibers can pop the waiter list at once "
+          "(barrier_single_consumer_refuted: count = 3, six fibers; seen on the real code with count = 2, four fibers)",
           "the arrival counter does not wrap (uint64)"]
